@@ -42,6 +42,22 @@ def probes(pid):
                 problem = 'IntColumn == object raised %r' % (e,)
             out.append(_case(pid, 'finding C02 int-column compared with the type object', problem,
                              'dm.i = IntColumn [1, 2]; dm.i == object'))
+        if pid == 'C13':
+            dm = DataMatrix(length=1)
+            dm.i = IntColumn
+            dm.i = [3]
+            x = -(2 ** 53 + 1)
+            problem = None
+            try:
+                got = int((x / dm.i)[0])
+                want = int(x / 3)           # -3002399751580331: Python divides the two ints with one rounding
+                if got != want:
+                    problem = ('-(2**53+1) / IntColumn([3]) = %d, but int(-(2**53+1) / 3) = %d (np.true_divide converts '
+                               'both int64 operands to float64 first)' % (got, want))
+            except Exception as e:      # noqa: BLE001
+                problem = 'x / IntColumn raised %r' % (e,)
+            out.append(_case(pid, 'finding C13 int beyond 2**53 divided by an IntColumn', problem,
+                             'dm.i = IntColumn [3]; -(2**53+1) / dm.i'))
         if pid == 'C15':
             dm = DataMatrix(length=3)
             dm.i = IntColumn
